@@ -311,7 +311,43 @@ pub trait Quantity: Copy + Sized + Mul<AmountT> {
             } else {
                 tmp = format!("{} {}", abs_amnt, self.unit());
             }
-            form.pad_integral(amnt_non_neg, "", &tmp)
+            // `Formatter::pad_integral` measures the text in bytes, which
+            // is too short for symbols with non-ASCII characters, so the
+            // padding is applied here, counting characters.
+            let sign = if !amnt_non_neg {
+                "-"
+            } else if form.sign_plus() {
+                "+"
+            } else {
+                ""
+            };
+            let n_chars = sign.len() + tmp.chars().count();
+            let padding =
+                form.width().map_or(0, |w| w.saturating_sub(n_chars));
+            let zero_pad = form.sign_aware_zero_pad();
+            let (pre, post) = match form.align() {
+                _ if zero_pad => (0, 0),
+                Some(fmt::Alignment::Left) => (0, padding),
+                Some(fmt::Alignment::Center) => {
+                    (padding / 2, padding - padding / 2)
+                }
+                _ => (padding, 0),
+            };
+            let fill = form.fill();
+            for _ in 0..pre {
+                fmt::Write::write_char(form, fill)?;
+            }
+            form.write_str(sign)?;
+            if zero_pad {
+                for _ in 0..padding {
+                    form.write_str("0")?;
+                }
+            }
+            form.write_str(&tmp)?;
+            for _ in 0..post {
+                fmt::Write::write_char(form, fill)?;
+            }
+            Ok(())
         }
     }
 }
